@@ -108,6 +108,13 @@ func (x *Exec) finish(st *State, fr *Frame, retTo ssa.Value, res Val, deferred b
 						site, _ := x.siteAnns(st, fr, call.Call.Pos())
 						x.oblige(st, fmt.Sprintf("%s/at:%s-ensure#%d", x.curFunc, site, a.Cl.Ord), "site-assert", a.Cl.Tags, t, call.Call.Pos(), "after "+site+": "+a.Cl.Src)
 					}
+					if a.Kind == "assume" {
+						// scenario: constrain the callee's result (a witness); the path must stay satisfiable
+						t := x.evalBool(env, a.Cl.Expr, a.Cl)
+						st.assume(t)
+						site, _ := x.siteAnns(st, fr, call.Call.Pos())
+						x.addObligation(st, &Obligation{Name: fmt.Sprintf("%s/cover-assume:%s#%d", x.curFunc, site, a.Cl.Ord), Kind: "cover", Goal: tFalse, Desc: "scenario assumption is consistent with the callee's contract (must be sat): " + a.Cl.Src})
+					}
 					if a.Kind == "set" {
 						gs, isGhost := x.ghostSort(a.Ghost)
 						if !isGhost {
